@@ -17,7 +17,8 @@ from harness.util import call, req, fmt
 
 PID = "C04"
 LEVEL = "exploration"
-RULE = ("Hypothesis draws series (10 classes, n 5..200) x gap pattern (>=2 valid) x uniformly spaced srange (3..40 entries, "
+RULE = ("[seventh seeded round] sub-check 'blocks': whitsvc on 16 equally shaped dask blocks evaluated by 4-16 threads at once (three times) must equal the in-memory result. " +
+        "Hypothesis draws series (10 classes, n 5..200) x gap pattern (>=2 valid) x uniformly spaced srange (3..40 entries, "
         "any start/step with lambda in [1e-4,1e6]) x p or none for ws2doptv/ws2doptvp; int16 series x lc in [-1,1] U "
         "{0.5, 0.5+ulp, NaN} for ws2doptvplc; small int16 cubes for ws2doptvplc_tyx; cubes x dims orders for whitsvc. "
         "Oracles: log10(lopt) is a midpoint of consecutive grid entries (1e-9) and lies in the near-minimiser set of an "
@@ -192,7 +193,27 @@ def sub_accessor(case):
                 "whitsvc sgrid (%d,%d) = %r, float32(log10(lopt)) = %r" % (i, j, sg[i, j], want), "whitsvc sgrid")
 
 
-SUBS = {"vcurve": sub_vcurve, "lcgrid": sub_lcgrid, "tyx": sub_tyx, "accessor": sub_accessor}
+def sub_blocks(case):
+    """whitsvc on a cube cut into equally shaped dask blocks, evaluated by several threads at once, against the in-memory call."""
+    from harness import lazyblocks
+
+    ny, nx, nt = case["shape"]
+    rng = np.random.default_rng(int(case["salt"]))  # a pure function of the case
+    t = np.arange(nt)
+    cube = (3000 + 2000 * np.sin(2 * np.pi * (t[None, None, :] / 12.0 + rng.random((ny, nx, 1)))) + rng.normal(0, 300, (ny, nx, nt))).astype("int16")
+    cube[rng.random((ny, nx, nt)) < 0.1] = -3000
+    da = xr.DataArray(cube, dims=("y", "x", "time"), coords={"time": pd.date_range("2010-01-01", periods=nt, freq="10D")}).transpose(*case["dims"])
+    if case.get("dtype", "int16") != "int16":
+        da = da.astype(case["dtype"])
+    sr = np.arange(-2.0, 2.1, 0.4)
+    kw = {"srange": sr}
+    if case.get("p") is not None:
+        kw["p"] = case["p"]
+    lazyblocks.check("whitsvc(%s)" % ", ".join(sorted(kw)), lambda d: d.hdc.whit.whitsvc(-3000, **kw), da, {"y": case["block"], "x": case["block"], "time": -1},
+                     workers=case.get("workers", 8), repeats=case.get("repeats", 3))
+
+
+SUBS = {"vcurve": sub_vcurve, "lcgrid": sub_lcgrid, "tyx": sub_tyx, "accessor": sub_accessor, "blocks": sub_blocks}
 
 LCS = st.one_of(st.floats(-1, 1), st.sampled_from([0.5, 0.5000000000000001, 0.49999999999999994, 0.7, 0.3, 1.0, -1.0, 0.0]),
                 st.just("NaN"))
@@ -308,6 +329,14 @@ def run(ctx):
         sub_accessor(case)
 
     ctx.given("accessor", cube_case(True), ctx.n(150, 2000), fn=f_acc)
+
+    # equally shaped dask blocks in flight at the same time (state shared between concurrently running blocks)
+    for k in range(ctx.n(3, 12)):
+        case = {"shape": [32, 32, 36], "block": 8, "salt": ctx.seed * 13 + k, "p": [None, 0.9, 0.5][k % 3], "workers": [8, 16, 4][k % 3],
+                "dims": [["time", "y", "x"], ["y", "x", "time"], ["y", "time", "x"]][k % 3], "dtype": ["int16", "float64", "float32"][k % 3], "repeats": 3}
+        ctx.rec.case("blocks", case, nontrivial=True, cls="blocks:p=%r" % case["p"])
+        if not ctx.run_case("blocks", case):
+            break
 
 
 from harness import history as _history  # noqa: E402
